@@ -344,6 +344,16 @@ def cli_pass(tier):
         scen.append(("%s-%d" % (meta["lex"], meta["k"]), text.rstrip("\n").split("\n")))
         scen.append(("%s-%d-crlf" % (meta["lex"], meta["k"]), [ln + "\r" for ln in text.rstrip("\n").split("\n")]))
     c19.interactive_pass(col, iexe, ienv, scen, tag="interactive-long-line")
+    # CRLF against LF through the interactive reader, with lexemes that span physical lines
+    for name, lf in (("multi-line-string", 's = "a\nb";\nprint strlen(s);\n'), ("block-comment", 'x = 1; /* c\nd */ print x;\n'),
+                     ("statement-over-lines", "x = 1 +\n2;\nprint x;\n")):
+        outs = []
+        for text in (lf, lf.replace("\n", "\r\n")):
+            rc, out, err, _ = c19.run_cli((iexe, ienv, ["-i"], text.encode(), None))
+            outs.append((rc, [l for l in c19.strip_interactive(out) if not l.startswith("Error")]))
+            col.count(("interactive-crlf", name, rc))
+        if outs[0] != outs[1]:
+            col.viol("interactive:crlf:%s" % name, "bloc -i fed %r prints %r with LF line ends and %r with CRLF line ends" % (lf, outs[0], outs[1]), {"text": lf})
     res.merge(col.res)
     res.parts.append({"part": "interactive-long-lines", "cases": len(scen)})
     return res
